@@ -145,11 +145,20 @@ theorem C12_perturb_detected (c : Cls) (pre post : List Val) (v v' : Val)
     | true => exact absurd ((C12_single_attribute_iff c pre post v v').mp he) hd
   exact ⟨h, by rw [C12_eq_symm]; exact h⟩
 
-/-- Sufficient conditions for "not the same" (`Differs`: leaves that differ, reals in different buckets — in particular
-    more than 10⁻¹⁰ apart —, a list position, a set member without partner, another class, an attribute of a nested
-    object): each of them contradicts `Same` and makes `rel` false.  (What exactly is not the same is `C12_rel_iff_same`.) -/
+/-- The catalogue of differences `Differs` (leaves that differ, reals in different buckets — in particular more than
+    10⁻¹⁰ apart —, a list position, a set member without partner, another class, an attribute of a nested object):
+    each of them contradicts `Same` and makes `rel` false. -/
 theorem C12_differs_detected (T : Table) (hT : T.RegE) (k : Kind) (v w : Val) (h : Differs T k v w) :
     rel T v k w = false ∧ ¬ Same T k v w := ⟨differs_sound T hT h, not_same_of_differs T hT h⟩
+
+/-- `Differs` is exact: `rel` is false exactly on the `Differs` pairs … -/
+theorem C12_rel_false_iff_differs (T : Table) (hT : T.RegE) (k : Kind) (hk : k.regE = true) (v w : Val) :
+    rel T v k w = false ↔ Differs T k v w := rel_false_iff_differs T hT k hk v w
+
+/-- … i.e. `Differs` (the hand-written catalogue of differences) is precisely the negation of `Same` (the independent
+    reading of "identical attribute values"): nothing that differs is missed by the catalogue, nothing in it is the same. -/
+theorem C12_differs_iff_not_same (T : Table) (hT : T.RegE) (k : Kind) (hk : k.regE = true) (v w : Val) :
+    Differs T k v w ↔ ¬ Same T k v w := differs_iff_not_same T hT k hk v w
 
 /-- reals more than 10⁻¹⁰ apart are never the same where an attribute is rounded -/
 theorem C12_real_far_not_same (T : Table) (a b : Rat)
@@ -200,7 +209,7 @@ example : eqv (circle 1 1000 (1 / 2)) (circle 2 1000 (1 / 2)) = false :=
 example : eqv (circle 1 1000 (1 / 2)) (circle 1 (1000 + 2 / 10000000000) (1 / 2)) = false :=
   (C12_perturb_detected .Circle [.num 1] [] (ofList [.num 1000, .num (1 / 2)])
     (ofList [.num (1000 + 2 / 10000000000), .num (1 / 2)])
-    (not_same_of_differs eqT eqT_regE (.head (K := .r10) rfl (.real (Or.inr (by norm_num)))))).1
+    (not_same_of_differs eqT eqT_regE (.head (K := .r10) rfl (Differs.real_far eqT (Or.inr (by norm_num)))))).1
 
 /-- … while 2·10⁻¹¹ stays in the bucket, and is the `Same` -/
 example : Same eqT .r10 (.num 1000) (.num (1000 + 2 / 100000000000)) := by
